@@ -22,7 +22,7 @@ LEVEL_TEXT = (
 LEVEL_NOTE = "The snapshot covers everything reachable through the public attributes of Plan/Registry/Node; render uses graphviz 'dot' with format='svg'."
 TECHNIQUE = "property-based testing: before/after structural snapshot invariant over generated action sequences, incl. concurrent real-thread runs"
 RULE = (
-    "Hypothesis draws a registry world (also: registry stores passed as plain arguments, a placeholder of another registry given a store through registry.add, a registry shared with another plan) and 1..5 actions from {run ok, run with injected fault at op k (stale-check or run "
+    "(also: Registry.source histories over a registry/plan and their copies; 2-3 concurrent dry runs on model threads preempted inside the registry transformation, each compared with the dry run alone; the Registry's keys/values/items/iter/len/in/get views after every action) Hypothesis draws a registry world (also: registry stores passed as plain arguments, a placeholder of another registry given a store through registry.add, a registry shared with another plan) and 1..5 actions from {run ok, run with injected fault at op k (stale-check or run "
     "phase), dry run, render(registry?, level?, predicate?), mutate a copy, mutate the original after copying, 4 "
     "concurrent runs}. Oracle: snapshot(before) == snapshot(after) for plan and registry after every action; copies and "
     "originals do not see each other's mutations; concurrent results equal the sequential one. Non-trivial = the action "
